@@ -43,7 +43,8 @@ bool ValidUtf8(const std::string& s) {
   }
   return true;
 }
-std::string Trim(const std::string& s) { size_t a = 0, b = s.size(); while (a < b && (s[a] == ' ' || s[a] == '\t')) ++a; while (b > a && (s[b - 1] == ' ' || s[b - 1] == '\t')) --b; return s.substr(a, b - a); }
+inline bool IsWs(char ch) { return ch == ' ' || ch == '\t' || ch == '\n' || ch == '\r' || ch == '\v' || ch == '\f'; }
+std::string Trim(const std::string& s) { size_t a = 0, b = s.size(); while (a < b && IsWs(s[a])) ++a; while (b > a && IsWs(s[b - 1])) --b; return s.substr(a, b - a); }
 std::vector<std::string> Split(const std::string& s, char d) { std::vector<std::string> r; std::string cur; for (char c : s) { if (c == d) { r.push_back(cur); cur.clear(); } else cur += c; } r.push_back(cur); return r; }
 bool HasSpecial(const std::string& s) { return s.find_first_of("@{}|") != std::string::npos; }
 
@@ -147,7 +148,9 @@ class RefSim final : public Engine {
   }
   std::string GenTags(Rng& r) {
     std::string s; const int n = r.Range(1, 3);
-    for (int i = 0; i < n; ++i) { if (i) s += r.Pct(20) ? ", " : ","; s += r.Pct(70) ? kTags[static_cast<size_t>(r.Range(24, 34))] : r.Pick(kTags); }
+    static const std::vector<std::string> seps{ ",", ",", ",", ", ", ",\t", ",\n  ", " ,", "\t, " };   // tags may be surrounded by any white space
+    for (int i = 0; i < n; ++i) { if (i) s += r.Pick(seps); s += r.Pct(70) ? kTags[static_cast<size_t>(r.Range(24, 34))] : r.Pick(kTags); }
+    if (r.Pct(8)) s = (r.Pct(50) ? "\t" : "\n") + s; if (r.Pct(8)) s += r.Pct(50) ? "\t" : " \n";
     return s;
   }
   std::string GenGoodEntity(Rng& r) {
